@@ -333,7 +333,7 @@ AGGS_NOFN = ["all", "any", "list", "tuple"]
 
 def jobs(tier):
     q = tier == "quick"
-    T = 150 if q else 900
+    T = 300 if q else 900
     J = []
 
     def add(fn, **part):
